@@ -25,7 +25,7 @@ def Wordy (cs : CharSpec) (t : Tok) : Prop :=
   NBs cs (vis t) ∧ t.kind ≠ .newline ∧ t.kind ≠ .ws ∧ t.kind ≠ .metaStart ∧ t.kind ≠ .eq ∧
     t.kind ≠ .textStep
 
-theorem tokBodyStart_ge (t : Tok) : t.start ≤ tokBodyStart t := by
+theorem cov_tokBodyStart_ge (t : Tok) : t.start ≤ tokBodyStart t := by
   unfold tokBodyStart; split <;> omega
 
 theorem Wordy.notComment {cs : CharSpec} {t : Tok} (h : Wordy cs t) :
@@ -229,7 +229,7 @@ theorem stepOne_coverAll (hw : WFI off w ts) (hz : Boundary off w 0) (hC : ∀ t
     refine ⟨_, hsp, ?_, ?_⟩
     · have := (hw.tokAt ht).1
       have := hw.offAt_mono hi1
-      have := tokBodyStart_ge t
+      have := cov_tokBodyStart_ge t
       show offAt ts s.cur ≤ tokBodyStart t
       omega
     · have := (hw.tokAt ht).2
@@ -311,13 +311,13 @@ theorem parseStep_coverAll (hw : WFI off w ts) (hz : Boundary off w 0) (hC : ∀
 
 /-! ### plumbing: conjunction of two facts about one run, and "the character tables are kept" -/
 
-theorem Sat.and {β : Type} {m : P α β} {s : BP α} {Q Q' : β → BP α → Prop} (h : Sat m s Q) (h' : Sat m s Q') :
+theorem Sat.covBoth {β : Type} {m : P α β} {s : BP α} {Q Q' : β → BP α → Prop} (h : Sat m s Q) (h' : Sat m s Q') :
     Sat m s (fun r s' => Q r s' ∧ Q' r s') := ⟨h, h'⟩
 
-theorem Sat.withCs {β : Type} {m : P α β} {s : BP α} {Q : β → BP α → Prop} (h : Sat m s Q) (hi : IndA m) :
+theorem Sat.covWithCs {β : Type} {m : P α β} {s : BP α} {Q : β → BP α → Prop} (h : Sat m s Q) (hi : IndA m) :
     Sat m s (fun r s' => Q r s' ∧ s'.cs = s.cs) := ⟨h, (hi.all s).cs⟩
 
-theorem GE.adv {n n' : Nat} (h : GE (CovQ (Wordy cs) K ts n) ts e s)
+theorem GE.covAdv {n n' : Nat} (h : GE (CovQ (Wordy cs) K ts n) ts e s)
     (hn : ∀ i, n ≤ i → i < n' → ∀ t, ts[i]? = some t → ¬ Wordy cs t) : GE (CovQ (Wordy cs) K ts n') ts e s :=
   h.mono (fun hi => hi.advance (fun i a b t ht hc => absurd hc (hn i a b t ht)))
 
@@ -331,9 +331,9 @@ theorem textLineK_coverAll (hw : WFI off w ts) (h : GE (CovQ (Wordy cs) K ts s.c
   unfold textLineK
   refine Sat.bind (currentOffset_sat h.g ?_)
   refine Sat.bind (Sat.getCur ?_)
-  refine Sat.bind (Sat.mono ((consumeWhile_ge _ h).withCs (consumeWhile_indA _)) ?_)
+  refine Sat.bind (Sat.mono ((consumeWhile_ge _ h).covWithCs (consumeWhile_indA _)) ?_)
   rintro _ s1 ⟨⟨g1, c1, -, -, hend⟩, cs1⟩
-  refine Sat.bind (Sat.mono ((consumeK_ge _ g1).withCs (consumeK_indA _)) ?_)
+  refine Sat.bind (Sat.mono ((consumeK_ge _ g1).covWithCs (consumeK_indA _)) ?_)
   rintro r2 s2 ⟨⟨g2, h2⟩, cs2⟩
   have hprog : s1.cur ≤ s2.cur ∧ (s.cur < ts.length → s.cur < s2.cur) := by
     cases r2 with
@@ -417,14 +417,14 @@ theorem textBlockLoop_coverAll (hw : WFI off w ts) (fuel : Nat) (h : GE (CovQ (W
         rcases Nat.lt_or_ge s1.cur ts.length with h' | h'
         · have := hp h'; omega
         · omega
-      refine Sat.bind (Sat.mono ((consumeK_ge _ h).withCs (consumeK_indA _)) ?_)
+      refine Sat.bind (Sat.mono ((consumeK_ge _ h).covWithCs (consumeK_indA _)) ?_)
       rintro r1 s1 ⟨⟨g1, h1⟩, cs1⟩
       cases r1 with
       | none => exact tail s1 (by rw [h1.1]; exact g1) (by rw [cs1, hcs]) (by omega)
       | some m =>
         obtain ⟨hm, hmk, c1⟩ := h1
         have g1' : GE (CovQ (Wordy cs) K ts s1.cur) ts e s1 := by
-          refine g1.adv ?_
+          refine g1.covAdv ?_
           intro i k1 k2 t ht hct
           have : i = s.cur := by omega
           subst this
@@ -433,14 +433,14 @@ theorem textBlockLoop_coverAll (hw : WFI off w ts) (fuel : Nat) (h : GE (CovQ (W
           subst ht
           exact hct.2.2.2.2.2 hmk
         dsimp only
-        refine Sat.bind (Sat.mono ((consumeK_ge _ g1').withCs (consumeK_indA _)) ?_)
+        refine Sat.bind (Sat.mono ((consumeK_ge _ g1').covWithCs (consumeK_indA _)) ?_)
         rintro r2 s2 ⟨⟨g2, h2⟩, cs2⟩
         cases r2 with
         | none => exact tail s2 (by rw [h2.1]; exact g2) (by rw [cs2, cs1, hcs]) (by omega)
         | some w' =>
           obtain ⟨hw', hwk, c2⟩ := h2
           refine tail s2 ?_ (by rw [cs2, cs1, hcs]) (by omega)
-          refine g2.adv ?_
+          refine g2.covAdv ?_
           intro i k1 k2 t ht hct
           have : i = s1.cur := by omega
           subst this
@@ -472,23 +472,23 @@ def EvCovers (cs : CharSpec) (ts : List Tok) (ev : Ev α) : Prop :=
 theorem sectionP_coverAll (hw : WFI off w ts) (h : G ts e s) (h0 : s.cur = 0) (hcs : s.cs = cs) :
     Sat (sectionP (α := α)) s (fun r _ => ∀ ev, r = some ev → EvCovers cs ts ev) := by
   unfold sectionP
-  refine Sat.bind (Sat.mono ((consumeK_sat _ h).withCs (consumeK_indA _)) ?_)
+  refine Sat.bind (Sat.mono ((consumeK_sat _ h).covWithCs (consumeK_indA _)) ?_)
   rintro r1 s1 ⟨⟨g1, h1⟩, cs1⟩
   cases r1 with
   | none => exact Sat.pure (fun ev hev => by cases hev)
   | some m =>
     obtain ⟨hm, hmk, c1⟩ := h1
-    refine Sat.bind (Sat.mono ((consumeWhile_sat _ g1).withCs (consumeWhile_indA _)) ?_)
+    refine Sat.bind (Sat.mono ((consumeWhile_sat _ g1).covWithCs (consumeWhile_indA _)) ?_)
     rintro eq1 s2 ⟨⟨g2, c2, he1, hall1, -⟩, cs2⟩
     refine Sat.bind (currentOffset_sat g2 ?_)
-    refine Sat.bind (Sat.mono ((consumeWhile_sat _ g2).withCs (consumeWhile_indA _)) ?_)
+    refine Sat.bind (Sat.mono ((consumeWhile_sat _ g2).covWithCs (consumeWhile_indA _)) ?_)
     rintro nameT s3 ⟨⟨g3, c3, hn, -, -⟩, cs3⟩
     have hr : RunAt (offAt ts s2.cur) nameT := by rw [hn]; exact slice_runAt hw.wf.run c3
     refine Sat.bind (bpText_sat hr ?_)
-    refine Sat.bind (Sat.mono ((consumeWhile_sat _ g3).withCs (consumeWhile_indA _)) ?_)
+    refine Sat.bind (Sat.mono ((consumeWhile_sat _ g3).covWithCs (consumeWhile_indA _)) ?_)
     rintro eq2 s4 ⟨⟨g4, c4, he2, hall2, -⟩, cs4⟩
     unfold wsComments
-    refine Sat.bind (Sat.mono ((consumeWhile_sat _ g4).withCs (consumeWhile_indA _)) ?_)
+    refine Sat.bind (Sat.mono ((consumeWhile_sat _ g4).covWithCs (consumeWhile_indA _)) ?_)
     rintro wsT s5 ⟨⟨g5, c5, he3, hall3, -⟩, cs5⟩
     refine Sat.bind (restToks_sat g5 ?_)
     split
@@ -593,7 +593,7 @@ theorem metadataEntry_coverAll (hw : WFI off w ts) (h : G ts e s) (h0 : s.cur = 
             rw [hkey]; exact m3
           · have := (hw.tokAt ht).1
             have := hw.offAt_mono (show s2.cur ≤ i by omega)
-            have := tokBodyStart_ge t
+            have := cov_tokBodyStart_ge t
             omega
         · show t.stop ≤ (buildText (offAt ts s3.cur) valT).span.stop
           by_cases a1 : i < s3.cur
@@ -726,7 +726,7 @@ theorem parseMultilineBlock_coverAll (hw : WFI off w ts) (hz : Boundary off w 0)
   · rename_i hall
     refine Sat.bind (Sat.mono (consumeRest_ge h) ?_)
     rintro _ s1 ⟨g1, c1, -⟩
-    refine Sat.pure ⟨g1.adv ?_, c1⟩
+    refine Sat.pure ⟨g1.covAdv ?_, c1⟩
     intro i _ _ t ht hct
     rw [List.all_eq_true] at hall
     have := hall t (List.mem_of_getElem? ht)
@@ -750,8 +750,8 @@ theorem parseBlock_coverAll (oldStyle : Bool) (hw : WFI off w ts) (hz : Boundary
   · refine Sat.bind (peekK_sat h.g ?_)
     split
     · apply withRecover_sat
-      refine Sat.bind (Sat.mono (((metadataEntry_ev hc h).and
-        (metadataEntry_coverAll (cs := cs) hw h.g h0)).withCs metadataEntry_indA) ?_)
+      refine Sat.bind (Sat.mono (((metadataEntry_ev hc h).covBoth
+        (metadataEntry_coverAll (cs := cs) hw h.g h0)).covWithCs metadataEntry_indA) ?_)
       rintro r1 s1 ⟨⟨⟨g1, h1, -⟩, hcv⟩, cs1⟩
       have hcs1 : s1.cs = cs := by rw [cs1, hcs]
       split
@@ -762,8 +762,8 @@ theorem parseBlock_coverAll (oldStyle : Bool) (hw : WFI off w ts) (hz : Boundary
         · exact Sat.pure ⟨g1.setCur h.le, hcs1, h0⟩
       · exact Sat.pure ⟨g1.setCur h.le, hcs1, h0⟩
     · apply withRecover_sat
-      refine Sat.mono (((sectionP_ev hc h).and
-        (sectionP_coverAll (cs := cs) hw h.g h0 hcs)).withCs sectionP_indA) ?_
+      refine Sat.mono (((sectionP_ev hc h).covBoth
+        (sectionP_coverAll (cs := cs) hw h.g h0 hcs)).covWithCs sectionP_indA) ?_
       rintro r1 s1 ⟨⟨⟨g1, h1, -⟩, hcv⟩, cs1⟩
       have hcs1 : s1.cs = cs := by rw [cs1, hcs]
       cases r1 with
@@ -810,7 +810,7 @@ theorem runBlock_coverAll (cs : CharSpec) (ext : Ext) (oldStyle : Bool) (blk : L
 
 /-- the same from `WF` alone (no surrounding text needed): pad the block's own characters with
     `baseOff` one-byte characters -/
-theorem utf8Len_replicate_a (n : Nat) : utf8Len (List.replicate n 'a') = n := by
+theorem cov_utf8Len_replicate_a (n : Nat) : utf8Len (List.replicate n 'a') = n := by
   induction n with
   | zero => rfl
   | succ n ih =>
@@ -818,14 +818,14 @@ theorem utf8Len_replicate_a (n : Nat) : utf8Len (List.replicate n 'a') = n := by
     have : 'a'.utf8Size = 1 := by decide
     omega
 
-theorem wf_wfi {b : List Tok} (hw : WF b) :
+theorem cov_wf_wfi {b : List Tok} (hw : WF b) :
     WFI 0 (List.replicate (baseOff b) 'a' ++ b.flatMap (·.text)) b :=
-  ⟨hw.ne, ⟨hw.run, ⟨List.replicate (baseOff b) 'a', [], by simp, by simp [utf8Len_replicate_a]⟩⟩⟩
+  ⟨hw.ne, ⟨hw.run, ⟨List.replicate (baseOff b) 'a', [], by simp, by simp [cov_utf8Len_replicate_a]⟩⟩⟩
 
 theorem runBlock_coverAll_wf (cs : CharSpec) (ext : Ext) (oldStyle : Bool) (blk : List Tok)
     (evs : Array (Ev α)) (hw : WF blk) :
     ∀ t ∈ blk, Wordy cs t → CoveredBy (runBlock cs ext oldStyle blk evs none).1 t :=
-  (runBlock_coverAll (K := fun _ => False) cs ext oldStyle blk evs (wf_wfi hw) Boundary.first
+  (runBlock_coverAll (K := fun _ => False) cs ext oldStyle blk evs (cov_wf_wfi hw) Boundary.first
     (fun _ h => h.elim)).2
 
 /-- **step blocks, components included, every token with a body**: a block of adjacent tokens whose
@@ -838,7 +838,7 @@ theorem runBlock_step_coverB (cs : CharSpec) (ext : Ext) (oldStyle : Bool) (b : 
     (hhead : ∀ t, b.head? = some t → t.kind ≠ .metaStart ∧ t.kind ≠ .eq ∧ t.kind ≠ .textStep)
     (hnb : b.all (fun t => isEmptyTok t.kind) = false) :
     ∀ t ∈ b, HasBody t → CoveredBy (runBlock cs ext oldStyle b evs none).1 t := by
-  have hwi := wf_wfi hw
+  have hwi := cov_wf_wfi hw
   have hz : Boundary 0 (List.replicate (baseOff b) 'a' ++ b.flatMap (·.text)) 0 := Boundary.first
   have g0 : GE (CovQ HasBody (fun _ => False) b 0) b ext (⟨b, 0, ext, cs, evs, none⟩ : BP α) :=
     ⟨⟨rfl, rfl, rfl, Nat.zero_le _⟩, fun _ h => h.elim, fun i hi => absurd hi (Nat.not_lt_zero _)⟩
@@ -930,7 +930,7 @@ def bodyToks (cs : CharSpec) (input : List Char) : List Tok :=
   | some fm => lexFrom cs fm.cookOffset fm.cookText
   | none => lex cs input
 
-theorem wordy_in_block {cs : CharSpec} (ts : List Tok) {t : Tok} (ht : t ∈ ts) (hct : Wordy cs t) :
+theorem cov_wordy_in_block {cs : CharSpec} (ts : List Tok) {t : Tok} (ht : t ∈ ts) (hct : Wordy cs t) :
     ∃ b ∈ allBlocks (ts.length + 1) ts, t ∈ b := by
   have h := blocks_all_drops (ts.length + 1) ts (by omega)
   false_or_by_contra
@@ -954,7 +954,7 @@ theorem pullEvents_coverAll (cs : CharSpec) (ext : Ext) (input : List Char) :
   | none =>
     rw [hp] at ht
     simp only at ht ⊢
-    obtain ⟨b, hb, htb⟩ := wordy_in_block _ ht hct
+    obtain ⟨b, hb, htb⟩ := cov_wordy_in_block _ ht hct
     have hbl : BlocksIn 0 input 0 (allBlocks ((lex cs input).length + 1) (lex cs input)) := by
       apply allBlocks_blocksIn _ _ 0 _ (Nat.le_refl _)
       unfold lex
@@ -966,7 +966,7 @@ theorem pullEvents_coverAll (cs : CharSpec) (ext : Ext) (input : List Char) :
     rw [hp] at ht
     simp only at ht ⊢
     obtain ⟨⟨pre, h1, h2⟩, -⟩ := hfm fm hp
-    obtain ⟨b, hb, htb⟩ := wordy_in_block _ ht hct
+    obtain ⟨b, hb, htb⟩ := cov_wordy_in_block _ ht hct
     have hbl : BlocksIn 0 input 0 (allBlocks ((lexFrom cs fm.cookOffset fm.cookText).length + 1)
         (lexFrom cs fm.cookOffset fm.cookText)) := by
       apply allBlocks_blocksIn _ _ fm.cookOffset _ (Nat.zero_le _)
@@ -985,7 +985,7 @@ structure AlnumSpec (cs : CharSpec) : Prop where
   notWs : ∀ c, cs.alnum c = true → cs.uws c = false ∧ cs.ws c = false
   notSyntax : ∀ c, cs.alnum c = true → c ≠ '>' ∧ c ≠ '=' ∧ c ≠ '\\' ∧ c ≠ '\n' ∧ c ≠ '\r' ∧ c ≠ '-'
 
-theorem singleKind_eq_char {c : Char} (h : singleKind c = some .eq) : c = '=' := by
+theorem cov_singleKind_eq_char {c : Char} (h : singleKind c = some .eq) : c = '=' := by
   unfold singleKind at h
   cases hf : singleTable.find? (fun p => p.1 == c) with
   | none => rw [hf] at h; simp at h
@@ -999,7 +999,7 @@ theorem singleKind_eq_char {c : Char} (h : singleKind c = some .eq) : c = '=' :=
     rw [← hc]; exact tbl q hm h
 
 /-- a lexed token that is not a comment and contains a letter or digit is a content token -/
-theorem wordy_of_alnum {cs : CharSpec} (hs : AlnumSpec cs) {t : Tok} {nx : Option Char}
+theorem cov_wordy_of_alnum {cs : CharSpec} (hs : AlnumSpec cs) {t : Tok} {nx : Option Char}
     (hsp : spellOK cs t.kind t.text nx = true) (hlc : t.kind ≠ .lineComment) (hbc : t.kind ≠ .blockComment)
     {c : Char} (hc : c ∈ t.text) (ha : cs.alnum c = true) : Wordy cs t := by
   have hu := (hs.notWs c ha).1
@@ -1060,7 +1060,7 @@ theorem wordy_of_alnum {cs : CharSpec} (hs : AlnumSpec cs) {t : Tok} {nx : Optio
       rw [k5] at hsp
       simp only [spellOK, Bool.and_eq_true, beq_iff_eq, List.isEmpty_iff] at hsp
       obtain ⟨rfl, hk⟩ := hsp
-      have := singleKind_eq_char hk
+      have := cov_singleKind_eq_char hk
       simp at hc
       exact n2 (hc.trans this)
     by_cases k6 : t.kind = .textStep
@@ -1086,6 +1086,6 @@ theorem pullEvents_alnum_covered (cs : CharSpec) (hs : AlnumSpec cs) (ext : Ext)
     · exact lexFrom_wellSpelled cs _ _
     · exact lexFrom_wellSpelled cs _ _
   obtain ⟨nx, hsp⟩ := wellSpelled_mem hwsp ht
-  exact wordy_of_alnum hs hsp hlc hbc hc ha
+  exact cov_wordy_of_alnum hs hsp hlc hbc hc ha
 
 end Cook
